@@ -9,6 +9,8 @@ from ..panics import sites_reachable
 
 # assumptions under which overflow asserts on clock arithmetic are discharged (thorough tier)
 CLOCK_BOUND = 2**62
+INFALLIBLE_JSON = {"bool", "u8", "u16", "u32", "u64", "usize", "i8", "i16", "i32", "i64", "isize", "std::string::String", "str", "f64",
+                   "std::option::Option<std::string::String>", "std::vec::Vec<std::string::String>"}
 
 
 def _field_invariants(entry):
@@ -140,6 +142,18 @@ def _unwrap_guarded(ctx, s):
     for (a, fm) in pa.find(lambda a: is_call(a, name_contains="is_some") or is_call(a, name_contains="is_ok")):
         if a[2] and a[2][0] == v and pa.entails(pc, fm):
             return True, "guarded by %s" % show(a, fn.names)[:80]
+    # serde_json's json! macro: `to_value(&x).unwrap()` - serialising a primitive, a string or an Option/Vec of those into a
+    # Value cannot fail (trusted dependency: serde's Serialize impls for these types are infallible)
+    cv = v
+    while cv[0] == "old":
+        cv = cv[1]
+    if is_call(cv, name_contains="serde_json::to_value") or is_call(cv, name_contains="value::to_value"):
+        for (bb2, t2) in fn.calls():
+            if t2["f"].get("path", "").endswith("to_value") and pa.fa._val_call(t2, (bb2, len(fn.blocks[bb2]["stmts"])), 0) == cv:
+                aty = (t2.get("atys") or [""])[0].replace("&", "").replace("mut ", "").strip()
+                if aty in INFALLIBLE_JSON:
+                    return True, "json!: to_value(%s) is infallible (trusted serde impl)" % aty
+                return False, "json!: to_value of %s may fail" % aty
     # a value that is Some/Ok by construction
     core = v
     while core[0] == "old":
